@@ -42,6 +42,7 @@ type nodeSnap struct {
 	latestIdx, commIdx  uint64
 	leader              uint64
 	inc                 int
+	xfer                bool // leadership transfer in progress
 }
 
 type ledger struct {
@@ -68,7 +69,7 @@ type ledger struct {
 	seenViol map[string]bool
 
 	stats struct {
-		leaders, commits, elections, configChanges, snapshots, compactions, restarts int
+		leaders, commits, elections, configChanges, snapshots, compactions, restarts, linChecks int
 	}
 	oracles map[string]bool // enabled optional oracles (durable, ...)
 }
@@ -266,6 +267,7 @@ func (l *ledger) beforeEvent(e simEvent) {
 			r := n.r
 			s.state, s.term, s.lastLogIndex, s.commitIndex = r.state, r.term, r.lastLogIndex, r.commitIndex
 			s.latestIdx, s.commIdx, s.leader = r.configs.Latest.Index, r.configs.Committed.Index, r.leader
+			s.xfer = r.state == Leader && r.ldr.transfer.inProgress()
 		}
 		l.prev = append(l.prev, s)
 	}
@@ -373,6 +375,11 @@ func (l *ledger) afterEvent(e simEvent) {
 		l.checkInfo(n)
 	}
 	l.checkTasks()
+	l.checkTransfer()
+	if l.oracles["client"] {
+		l.checkClient()
+		l.checkLinearizable()
+	}
 }
 
 type cachedEntry struct {
@@ -444,6 +451,10 @@ func (l *ledger) scanNode(n *simNode) {
 	}
 	if r.state == Candidate && (!p.up || p.inc != n.inc || p.state != Candidate || p.term != r.term) {
 		l.stats.elections++
+	}
+	// C16: while a transfer is in progress the leader accepts no new entries
+	if p.up && p.inc == n.inc && p.xfer && p.state == Leader && r.state == Leader && p.term == r.term && r.lastLogIndex > p.lastLogIndex {
+		l.violate("transfer", "entry-accepted-during-transfer", fmt.Sprintf("leader %d appended entries %d..%d while a leadership transfer was in progress", n.id, p.lastLogIndex+1, r.lastLogIndex))
 	}
 	// C11: a non-voter (in its own latest config) is never candidate or leader
 	if r.state == Candidate || (r.state == Leader && (!p.up || p.state != Leader || p.term != r.term)) {
@@ -910,6 +921,60 @@ func (l *ledger) checkDurable(by *simNode, index, term uint64) {
 	}
 	parts := strings.SplitN(worst, " ", 2)
 	l.violate("durable", "committed-not-durable-on-majority:"+parts[0], fmt.Sprintf("index %d (term %d) reported committed by node %d is durable on %s [%s]", index, term, by.id, worst, strings.Join(detail, " ")))
+}
+
+// C16: what a transfer designates and what its result means.
+func (l *ledger) checkTransfer() {
+	w := l.w
+	// every timeout-now request in flight was sent to a voter that holds the leader's whole log
+	for _, c := range w.liveConns() {
+		w.mu.Lock()
+		closed := c.closed
+		w.mu.Unlock()
+		if closed || c.tnChecked {
+			continue
+		}
+		p := c.peekRequest()
+		if p == nil || !p.complete || p.typ != rpcTimeoutNow {
+			continue
+		}
+		c.tnChecked = true
+		src := w.nodes[c.cli]
+		if !src.up || src.r.state != Leader {
+			continue
+		}
+		r := src.r
+		target := uint64(c.srv + 1)
+		l.claimLeader(p.term, src.id, "timeoutNow")
+		if !r.configs.Latest.isVoter(target) {
+			l.violate("transfer", "timeoutnow-to-nonvoter", fmt.Sprintf("leader %d sent timeout-now to node %d which is not a voter in {%s}", src.id, target, canonConfig(r.configs.Latest)))
+		}
+		if repl := r.ldr.repls[target]; repl == nil || repl.status.matchIndex != r.lastLogIndex {
+			var m uint64
+			if repl != nil {
+				m = repl.status.matchIndex
+			}
+			l.violate("transfer", "timeoutnow-to-lagging-node", fmt.Sprintf("leader %d (last log index %d) sent timeout-now to node %d whose match index is %d", src.id, r.lastLogIndex, target, m))
+		}
+	}
+	// a transfer that reports success: the old leader has stepped down in favour of a higher term
+	for _, st := range w.tasks {
+		if st.kind != "transfer" || st.ret != w.clock || st.checked {
+			continue
+		}
+		st.checked = true
+		if st.inner.result != nil {
+			continue
+		}
+		n := w.nodes[st.node]
+		if n.inc != st.inc || !n.up {
+			continue
+		}
+		r := n.r
+		if r.state == Leader || r.term <= st.termAtInvoke {
+			l.violate("transfer", "success-without-stepdown", fmt.Sprintf("TransferLeadership on node %d (term %d at request) returned success but the node is %v in term %d", n.id, st.termAtInvoke, r.state, r.term))
+		}
+	}
 }
 
 // L-alive: tasks complete at most once
